@@ -13,7 +13,12 @@ CHECK = {
                             "pt_origin", "pt_on_parallel", "pt_on_central_meridian", "pt_box_corner", "pt_generic",
                             "sibling_converters_interleaved", "sibling_differs_in_k0",
                             "sibling_differs_in_semi_major_axis", "sibling_differs_in_false_origin",
-                            "sibling_differs_in_longitude0", "sibling_differs_in_latitude0"],
+                            "sibling_differs_in_longitude0", "sibling_differs_in_latitude0",
+                            "sphere_radius_continuous", "sphere_radius_authalic", "sphere_radius_round",
+                            "ellipsoid_tiny_eccentricity",
+                            "value_semantics", "value_semantics_copy_source_overwritten",
+                            "value_semantics_move_source_overwritten", "value_semantics_copy_source_destroyed",
+                            "value_semantics_vector_growth"],
     "required_oracles": ["conformal.h_over_k", "conformal.orthogonality", "scale.standard_parallel_k",
                          "scale.tangent_parallel_k", "origin.to_false_origin_m", "central_meridian.x_m",
                          "roundtrip.lat_rad", "roundtrip.lon_rad", "forward.vs_snyder_m"],
@@ -31,8 +36,12 @@ CHECK = {
             "converter (same set but for ONE of k0 / latitude0 / false origin / semi-major axis at equal eccentricity / "
             "longitude0) is alive too and every forward, stencil and inverse call is made on the two converters in turn "
             "with bit-identical points (special points taken from either set), all oracles applied to each.  "
+            "Spheres take their radius from {6378137, 6371000, authalic 6371007.180918475, any double in 6.3e6..6.4e6}; "
+            "eccentricities down to 1e-9 with a continuous semi-major axis.  For 30 % of the cases the converter under test "
+            "is not constructed in place but is a copy / a moved-to object whose source (a std::optional slot, a heap object, "
+            "a growing std::vector) is then overwritten with ANOTHER zone, destroyed, or relocated before any oracle runs.  "
             "non-trivial = parameter set other than the two the unit tests pin a value for (CC46, Lambert I), or any "
-            "interleaved pair",
+            "interleaved pair or non-direct construction",
     "level_text": "exploration: the real LambertConverter is built through its public secant / tangent constructors for "
                   "2e4 (quick) / 3e5 (thorough) generated parameter sets of both hemispheres (40 % of them together with a sibling converter differing in one parameter, calls interleaved) and evaluated at 5e5 / 1.2e7 points; "
                   "at each point the two local scales and the angle between the images of meridian and parallel are measured by "
@@ -48,6 +57,7 @@ CHECK = {
                     "finite-difference scales (Richardson, steps 2e-4 / 1e-4 rad) resolve 1e-11 relative; the stated equalities are tested to 1e-9",
                     "longitudes are not wrapped: longitude0 is kept within +-149 deg so that every point of the +-30 deg box is inside [-pi, pi]",
                     "a standard parallel farther than 8 deg from latitude0 is outside the quantified box and is not sampled for the k = 1 oracle",
+                    "value semantics: copies are exercised through copy/move construction only (no converter assignment is used)",
                     "cross-object interference is looked for on one thread only, between two converters alive at a time that differ in a single parameter",
                     "g++ 12 ASan+UBSan runtime; asserts live (no -DNDEBUG)"],
 }
